@@ -53,6 +53,17 @@ def m_assert(s, av):
     bad = z3.simplify(c == 0)
     if z3.is_false(bad): s.events.append(('assert', aid, 'folded')); return None
     s.stats['assert_queries'] += 1
+    xdir = s.B.get('xcheck_dir')
+    if xdir and s.stats['assert_queries'] % s.B.get('xcheck_every', 5) == 1 and s.stats['xcheck_exported'] < s.B.get('xcheck_max', 4):
+        # export this query (path condition and negated assertion) for re-decision by a second solver (cvc5)
+        try:
+            import os
+            s.solver.push(); s.solver.add(bad); txt = s.solver.to_smt2(); s.solver.pop()
+            verdict = 'sat' if s.feasible(bad) else 'unsat'
+            k = s.stats['xcheck_exported']; s.stats['xcheck_exported'] += 1
+            fn = os.path.join(xdir, '%s-%d-%d-%d.smt2' % (s.frames[0].code.name, os.getpid(), aid, k))
+            open(fn, 'w').write('; expected: %s\n(set-logic ALL)\n' % verdict + txt)
+        except Exception: pass
     if s.feasible(bad):
         s.solver.push(); s.solver.add(bad); m = None
         if s.check(): m = s.solver.model()
